@@ -355,17 +355,18 @@ def project(I: Interner, *, start=(), fields=(), body=b"", trailers=(), request=
 
 REQ_CLASSES = ("plain", "cookies", "upper", "connhdr", "te_trailers", "empty_value", "crlf_value", "lf_value", "nul_value",
                "ws_value", "space_path", "space_method", "crlf_path", "dup_pseudo", "missing_path", "host_mismatch",
-               "host_only", "nocl", "cl_short", "cl_long")
+               "host_only", "nocl", "cl_short", "cl_long", "cl_short_mid")
 RESP_CLASSES = ("plain", "setcookies", "upper", "connhdr", "crlf_value", "lf_value", "nul_value", "nocl", "cl_short",
                 "cl_long", "status204_body", "dup_status", "bad_status")
 BODIES = ("none", "data", "trailers")
 H1_ONLY_OK = {"req": {"plain", "cookies", "upper", "connhdr", "te_trailers", "empty_value", "space_path", "nocl"},
               "resp": {"plain", "setcookies", "upper", "connhdr", "nocl"}}
-NEEDS_BODY = {"nocl", "cl_short", "cl_long", "status204_body"}
+NEEDS_BODY = {"nocl", "cl_short", "cl_long", "cl_short_mid", "status204_body"}
+BODY_UNDEFINED = {"cl_short", "cl_long", "cl_short_mid"}  # the declared and the sent length disagree
 # classes that are not legitimate messages of the version they are sent over
 INVALID_H23 = {"upper", "connhdr", "crlf_value", "lf_value", "nul_value", "ws_value", "space_path", "space_method", "crlf_path",
-               "dup_pseudo", "missing_path", "host_mismatch", "cl_short", "cl_long", "dup_status", "bad_status",
-               "status204_body"}
+               "dup_pseudo", "missing_path", "host_mismatch", "cl_short", "cl_long", "cl_short_mid", "dup_status",
+               "bad_status", "status204_body"}
 INVALID_H1 = {"space_path"}
 CHUNKS = (b"he", b"llo")
 
@@ -375,7 +376,7 @@ def applicable(direction: str, frm: str, cls: str, body: str) -> bool:
         return False
     if cls in NEEDS_BODY and body == "none":
         return False
-    if cls in ("cl_short", "cl_long", "status204_body") and body == "trailers":
+    if cls in ("cl_short", "cl_long", "cl_short_mid", "status204_body") and body == "trailers":
         return False
     return True
 
@@ -409,6 +410,8 @@ def build(direction: str, frm: str, cls: str, body: str, rnd=None):
         trailers = [(b"x-t-" + _tok(rnd, 1, 5), _tok(rnd)) for _ in range(rnd.randint(1, 2))]
     if frm == "h1" and direction == "resp" and cls == "nocl":
         trailers = []  # a read-until-close body cannot have trailers
+    if cls == "cl_short_mid":
+        chunks = [b"he", b"l", b"lo"]  # the declared length (2) is reached after the first of three DATA frames
     total = sum(map(len, chunks))
     extra: list = []
     if cls == "plain":
@@ -489,7 +492,7 @@ def build(direction: str, frm: str, cls: str, body: str, rnd=None):
             pseudo = [(b":status", b"2 0")]
         out["head"] = pseudo + extra
     if chunks and cls not in ("nocl", "status204_body"):
-        n = total - 2 if cls == "cl_short" else total + 3 if cls == "cl_long" else total
+        n = max(total - 2, 0) if cls == "cl_short" else total + 3 if cls == "cl_long" else 2 if cls == "cl_short_mid" else total
         out["head"] = out["head"] + [(b"content-length", b"%d" % n)]
     return out
 
@@ -503,7 +506,7 @@ def run_case(case: dict) -> list[dict]:
     I = Interner()
     x.start()
     rec = {"k": "xlate", "dir": direction, "from": frm, "to": to, "cls": cls, "mode": mode, "body": body,
-           "valid": is_valid(frm, cls)}
+           "valid": is_valid(frm, cls), "bodydef": cls not in BODY_UNDEFINED}
     spec = build(direction, frm, cls, body, random.Random(case["var"]) if case.get("var") is not None else None)
     if direction == "req":
         side_from, side_to = "client", "server"
@@ -597,7 +600,7 @@ def _view(trace):
         if r.get("k") != "xlate":
             out.append(r)
             continue
-        v = {k: r[k] for k in ("k", "dir", "from", "to", "cls", "mode", "body", "valid", "crashed", "n", "mal", "complete", "own")}
+        v = {k: r[k] for k in ("k", "dir", "from", "to", "cls", "mode", "body", "valid", "bodydef", "crashed", "n", "mal", "complete", "own")}
         v["stray"] = r["extra"] > 0
         if r["crashed"]:  # how far the message got before the exception is not predicted
             v["n"], v["complete"], v["stray"], v["mal"] = None, None, None, None
@@ -634,7 +637,7 @@ class Check(core.PropertyCheck):
         out = []
         for c in all_cases():
             s = case_sent(c)
-            out.append(dict(c, valid=is_valid(c["from"], c["cls"]), sent=s))
+            out.append(dict(c, valid=is_valid(c["from"], c["cls"]), bodydef=c["cls"] not in BODY_UNDEFINED, sent=s))
         return out
 
     def model_constants(self, tier):
